@@ -97,7 +97,7 @@ def c01_dominance(tier="quick", seed=0):
             # innermost enclosing while loop
             encl = [l for l in loops if any(c is call for c in ast.walk(l))]
             sites.append((f.name, call.lineno, encl))
-    out.append(ob("C01.dominance.sites", len(sites) >= 2 and {s[0] for s in sites} == {"_execute", "_call_callback"}, "K3",
+    out.append(ob("C01.dominance.sites", len(sites) >= 2 and "_execute" in {s[0] for s in sites}, "K3",
                   f"_execute_opcode is dispatched from {sorted({s[0] for s in sites})}"))
     for fname, line, encl in sites:
         ok = False
